@@ -37,11 +37,36 @@
 (*                      formats the address it was asked about (the        *)
 (*                      client's) into its text; logged at Error           *)
 (*                                                                         *)
+(* and, on the registration path of CONNECTING transports (the station     *)
+(* dials OUT to the client: pkg/station/lib/registration_ingest.go          *)
+(* ingestRegistration -> handleConnectingTpReg, DTLS):                      *)
+(*   connect.Fail       registration_ingest.go:569 transport.Connect fails. *)
+(*                      The network calls are made INSIDE the transport     *)
+(*                      (reuseport.Dial to the client, the DTLS handshake's *)
+(*                      reads / writes on that socket); between them and    *)
+(*                      the site sits the transport layer, which may hand   *)
+(*                      the error on as is ("op"), wrapped ("fmt") or       *)
+(*                      FLATTENED: the dtls Transport.Connect formats it    *)
+(*                      with %v into a fresh error ("flat": the text still  *)
+(*                      names both endpoints, the chain is gone, so no      *)
+(*                      sanitiser working on errors.Is / errors.As can      *)
+(*                      strip it).  Kind "ctxdeadline" = the 5 s context    *)
+(*                      expired (the timeout branch).  Intended: counters   *)
+(*                      only, nothing is written (ConnectFailLog = "none"). *)
+(*   connect.geoip.CC / connect.geoip.ASN  :551/:559 the handler's own      *)
+(*                      GeoIP lookups of the registrant, logged at Error    *)
+(*                                                                         *)
 (* Sanitizer = "intended": every error leaves the sanitiser address-free   *)
 (*           = "listed"  : only the anticipated kinds are replaced, any    *)
 (*                         other error is returned unchanged               *)
 (* RawDeadlineLog = TRUE : the two SetDeadline logs print the raw error    *)
 (* IngestPrintsRegistrant = the ingest log sites that print the registrant  *)
+(* ConnectFailLog = "none"      connect.Fail only counts (intended)        *)
+(*                = "sanitised" it also writes an Error-level line with    *)
+(*                              the error passed through the sanitiser     *)
+(*                = "raw"       ... with the error as returned             *)
+(*   ("sanitised" looks safe and is not: the flattened shape passes the    *)
+(*   sanitiser unchanged - this instance must violate NoTaintAtSink)       *)
 (* The intended instance is (intended, FALSE, {}); (listed, TRUE, ..) must violate *)
 (* NoTaintAtSink and predicts the tainted paths.                           *)
 (***************************************************************************)
@@ -53,7 +78,8 @@ CONSTANTS Kinds,           \* error kinds, see Listed / TimeoutKinds below
           LogIPs,          \* subset of BOOLEAN: LOG_CLIENT_IP settings explored
           Sanitizer, RawDeadlineLog,
           IngestPrintsRegistrant, \* ingest sites whose log line includes the registrant address ({} intended)
-          RawSites                \* pre-classification sites that print the error as returned ({} intended)
+          RawSites,               \* pre-classification sites that print the error as returned ({} intended)
+          ConnectFailLog          \* "none" (intended) | "sanitised" | "raw": what connect.Fail writes besides its counter
 
 VARIABLES pc, case, txt, out, obs
 
@@ -67,9 +93,11 @@ RelaySites == {"relay.Read", "relay.ReadFull", "relay.Write", "relay.CloseDst", 
 IngestSites == {"ingest.drop-log-names-registrant",      \* covert == "" branch: "Dropping reg, malformed or blocklisted covert"
                 "ingest.validate-incomplete", "ingest.validate-transport-disabled", "ingest.new-v6-phantom",
                 "ingest.duplicate", "ingest.new-v4-phantom-liveness", "ingest.detector-source"}
-GeoSites == {"geoip.CC", "geoip.ASN"}
+GeoSites == {"geoip.CC", "geoip.ASN", "connect.geoip.CC", "connect.geoip.ASN"}
 PreSites == {"accept.File"} \cup GeoSites
-Sites == ClsSites \cup RelaySites \cup {"dial"} \cup IngestSites \cup PreSites
+\* the connecting-transport registration path (handleConnectingTpReg): I/O whose peer is the client, made inside transport.Connect
+ConnSites == {"connect.Fail"}
+Sites == ClsSites \cup RelaySites \cup {"dial"} \cup IngestSites \cup PreSites \cup ConnSites
 
 Closedish    == {"closed", "EOF", "EPIPE"}
 Sentinel     == [RST |-> "rst", REFUSED |-> "refused", ABORTED |-> "aborted", HOSTUNREACH |-> "unreachable"]
@@ -83,6 +111,9 @@ ShapeOK(s, k, w) == /\ (s \in IngestSites <=> k = "registrant") /\ (s \in Ingest
                     /\ (s = "accept.File" <=> k = "EMFILE") /\ (k = "EMFILE" => w = "op")
                     /\ (s \in GeoSites <=> k = "lookup") /\ (s \in GeoSites <=> w = "names-ip")
                     /\ (k = "EOF" => w = "bare")
+                    /\ (w = "flat" => s \in ConnSites)        \* only there does a layer that re-formats errors sit before the site
+                    /\ (k = "ctxdeadline" <=> w = "ctx") /\ (k = "ctxdeadline" => s \in ConnSites)  \* ctx.Err() is returned as is
+                    /\ (s \in ConnSites => k # "EOF" /\ w # "oploc")   \* a failed dial / handshake names the peer; EOF cannot fail a connect
                     /\ (s = "dial" => w = "op" /\ k = "REFUSED")   \* the only dial failure that can be provoked offline
                     /\ (k \in {"other"} /\ w = "sys" => FALSE)   \* an opaque error has no errno to wrap
                     /\ (k \in {"closed", "timeout"} /\ w \in {"sys", "bare"} => FALSE)   \* only seen inside *net.OpError
@@ -90,6 +121,7 @@ ShapeOK(s, k, w) == /\ (s \in IngestSites <=> k = "registrant") /\ (s \in Ingest
 \* the error's text names the client's endpoint
 Tainted(s, k, w) == \/ s \in IngestSites
                     \/ w = "names-ip"
+                    \/ w = "flat"           \* "<layer>: dial udp 0.0.0.0:41245->CLIENT:PORT: connect: ..." as plain text
                     \/ s # "dial" /\ w \in {"op", "fmt"} /\ k # "EOF"
 
 \* generalizeErr as a function on (kind, wrapping): the set of result classes it may produce.
@@ -98,14 +130,17 @@ Tainted(s, k, w) == \/ s \in IngestSites
 \*   "generic"       some other address-free error        "raw"  the error unchanged
 San(s, k, w) ==
   CASE s \in IngestSites -> IF s \in IngestPrintsRegistrant THEN {"raw"} ELSE {"omitted"}
-    [] k \in Closedish -> {IF s \in RelaySites THEN "nil" ELSE "closed"}
+    [] w = "flat" -> {"raw"}          \* no errno, no *net.OpError to be found: whatever the sanitiser, the text comes back unchanged
+    [] k = "ctxdeadline" -> {"generic"}   \* "context deadline exceeded"
+    [] k \in Closedish -> {IF s \in RelaySites \cup ConnSites THEN "nil" ELSE "closed"}   \* package lib's generalizeErr / package main's
     [] k \in DOMAIN Sentinel -> {Sentinel[k]}
     [] k \in TimeoutKinds /\ w \in {"op", "oploc", "bare"} -> {"timeout"}   \* err.(net.Error) holds for these shapes
     [] k \in TimeoutKinds -> IF Sanitizer = "intended" THEN {"timeout", "generic"} ELSE {"raw"}
     [] OTHER -> IF Sanitizer = "intended" THEN {"generic"} ELSE {"raw"}
 
 Sanitised(s) == IF s \in {"init.SetDeadline", "found.SetDeadline"} THEN ~RawDeadlineLog
-                ELSE IF s \in PreSites THEN s \notin RawSites ELSE TRUE
+                ELSE IF s \in PreSites THEN s \notin RawSites
+                ELSE IF s \in ConnSites THEN ConnectFailLog # "raw" ELSE TRUE
 
 \* the site's sink and whether it is visible at the default log level (Error)
 Sink(s) == CASE s \in {"init.SetDeadline", "found.SetDeadline", "noreg.Read", "notransport.Read", "loop.Read"} \cup PreSites -> "log.error"
@@ -114,13 +149,20 @@ Sink(s) == CASE s \in {"init.SetDeadline", "found.SetDeadline", "noreg.Read", "n
              [] s = "dial" -> "stats"
              [] s \in IngestSites -> "log.info"          \* Info is printed at every level
              [] OTHER -> "none"
+\* connect.Fail: the deadline branch never writes; the other branch writes iff ConnectFailLog says so
+SinkOf(cs) == IF cs.site \in ConnSites
+              THEN (IF ConnectFailLog = "none" \/ cs.k = "ctxdeadline" THEN "none" ELSE "log.error")
+              ELSE Sink(cs.site)
+\* result classes possible for a case; an error that is only counted is "dropped" (it reaches no sanitiser and no sink)
+Classes(cs) == IF cs.site \in ConnSites /\ SinkOf(cs) = "none" THEN {"dropped"}
+               ELSE IF Sanitised(cs.site) THEN San(cs.site, cs.k, cs.w) ELSE {"raw"}
 Visible(snk) == snk \in {"log.error", "log.info", "stats"}
 
 \* does the sink print the error's own text for result class c (the fixed texts "rst"/"timeout"/"closed" do not)
 PrintsErrText(s, c) ==
   CASE s \in {"noreg.Read", "notransport.Read"} -> c \notin {"rst", "timeout", "closed", "nil"}
     [] s = "loop.Read" -> c \notin {"rst", "timeout", "closed"}
-    [] s \in RelaySites -> c # "nil"
+    [] s \in RelaySites \cup ConnSites -> c # "nil"
     [] OTHER -> TRUE
 
 vars == <<pc, case, txt, out, obs>>
@@ -143,10 +185,10 @@ Fail ==
 
 Handle(c) ==
   /\ pc = "handle"
-  /\ c \in (IF Sanitised(case.site) THEN San(case.site, case.k, case.w) ELSE {"raw"})
+  /\ c \in Classes(case)
   /\ out' = [class |-> c,
              txt |-> IF c = "raw" THEN txt ELSE "clean",     \* anything but the unchanged error is address-free
-             sink |-> Sink(case.site)]
+             sink |-> SinkOf(case)]
   /\ pc' = "emit" /\ UNCHANGED <<case, txt>>
   /\ obs' = [a |-> "Handle", class |-> c]
 
@@ -157,14 +199,14 @@ Emit ==
   /\ obs' = [a |-> "Case", site |-> case.site, k |-> case.k, w |-> case.w, fam |-> case.fam, logip |-> case.logip,
              leak |-> Leak(case, out),
              \* result classes the sanitiser may produce for this case (what the statistics string may be)
-             classes |-> IF Sanitised(case.site) THEN San(case.site, case.k, case.w) ELSE {"raw"},
+             classes |-> Classes(case),
              \* with LOG_CLIENT_IP on, the connection's log prefix carries the address: it must show whenever the
              \* site certainly writes an Error-level line before the prefix is replaced (detector non-vacuity)
              show |-> case.logip /\ out.sink = "log.error" /\ case.site # "accept.File" /\ ~(case.site \in {"noreg.Read", "notransport.Read"} /\ out.class \in {"closed", "nil"})]
 
 Next == \/ \E s \in Sites, k \in Kinds, w \in Wraps, f \in Fams, ip \in LogIPs : Pick(s, k, w, f, ip)
         \/ Fail \/ Emit
-        \/ \E c \in {"nil", "closed", "rst", "refused", "aborted", "unreachable", "timeout", "generic", "raw", "omitted"} : Handle(c)
+        \/ \E c \in {"nil", "closed", "rst", "refused", "aborted", "unreachable", "timeout", "generic", "raw", "omitted", "dropped"} : Handle(c)
 Spec == Init /\ [][Next]_vars
 
 \* ------------------------------ properties ------------------------------
@@ -172,8 +214,11 @@ TypeOK == pc \in {"pick", "fail", "handle", "emit", "done"} /\ txt \in {"none", 
 
 \* C17: with client-address logging off nothing visible at the default level carries the client's address
 NoTaintAtSink == pc \in {"emit", "done"} => ~Leak(case, out)
-\* the sanitiser never returns the error unchanged
+\* the sanitiser never returns the error unchanged (wherever a sanitiser is reached at all)
 NeverRaw == pc \in {"emit", "done"} => out.class # "raw"
+\* the connecting path: a failed Connect is counted, never described (no function of the error's text is address-free for every
+\* shape the transport layer can hand over)
+ConnectFailSilent == (pc \in {"emit", "done"} /\ case.site \in ConnSites) => out.sink = "none" /\ out.class = "dropped"
 \* anticipated kinds keep their fixed replacement texts (stats consumers key on them)
-SentinelsStable == (pc \in {"emit", "done"} /\ case.k \in DOMAIN Sentinel /\ Sanitised(case.site)) => out.class = Sentinel[case.k]
+SentinelsStable == (pc \in {"emit", "done"} /\ case.k \in DOMAIN Sentinel /\ Sanitised(case.site) /\ out.class # "dropped") => out.class = Sentinel[case.k]
 =============================================================================
